@@ -1010,9 +1010,8 @@ def growth(index, rep):
                 slot = k
     f1 = index.func(PARAMS, "Parameters.compute_parameters_first_round")
     inl_f = Inliner(f1)
-    sts = [s_ for s_ in walk_no_nested(f1) if isinstance(s_, ast.Assign) and isinstance(s_.targets[0], ast.Subscript)
-           and str_const(s_.targets[0].slice) == "growth_rates_monthly"]
-    okw = slot is not None and len(sts) == 1 and inl_f.src(sts[0].value).startswith("self.set_seaweed_params(") and inl_f.src(sts[0].value).endswith(f"[{slot}]")
+    sts = [v_ for t_, v_ in inl_f.stores if isinstance(t_, ast.Subscript) and str_const(t_.slice) == "growth_rates_monthly"]
+    okw = slot is not None and len(sts) == 1 and inl_f.src(sts[0]).startswith("self.set_seaweed_params(") and inl_f.src(sts[0]).endswith(f"[{slot}]")
     rep.check(okw, rule, "supplier wired to the optimiser input",
               "growth_rates_monthly is not the series returned by Seaweed.get_growth_rates", loc=loc(PARAMS, p))
 
